@@ -211,7 +211,7 @@ def sx(name, **kw):
 
 
 _cost_table = None
-QUICK_TARGET = 400000     # executions one quick tier can complete in ~150 s on 16 idle cores (measured ~2.7k executions/s)
+QUICK_TARGET = 360000     # executions one quick tier can complete in ~150 s on 16 idle cores (measured ~2.7k executions/s)
 
 
 def _cost(t):
